@@ -17,7 +17,7 @@ __CPROVER_requires(len == 1)
 __CPROVER_assigns()
 __CPROVER_ensures(__CPROVER_return_value == ghash[kid(s)]);
 HashEntry B[CAP]; HashMap M;
-#if OPN == 3
+#if OPN == 3 && !defined(CONCRETE_STATE)
 // rehash is only ever entered for the table itself: the put it performs on the freshly sized copy must never
 // need another rehash.  Stated as the precondition of the recursive contract, so an inner call fails it.
 static void rehash(HashMap *map)
@@ -57,11 +57,18 @@ static _Bool wf(HashMap *mp) {
 static void any_state(void) {
   for (int i = 0; i < CAP; i++) {
     int c = nondet_int_();
+#ifdef CONCRETE_STATE
+    /* slot kinds are concretised path by path (cbmc --paths lifo): the number of live keys, hence the capacity rehash picks, is then a constant on every path */
+    switch (c) { case 0: c = 0; break; case 1: c = 1; break; case 2: c = 2; break; case 3: c = 3; break; default: c = 4; break; }
+#endif
     B[i].key = c == 0 ? 0 : c == 1 ? (char *)TOMBSTONE : c == 2 ? pool[0] : c == 3 ? pool[1] : pool[2];
     B[i].keylen = 1;
     B[i].val = nondet_ptr_();
   }
   M.buckets = B; M.capacity = CAP; M.used = nondet_int_();
+#ifdef CONCRETE_STATE
+  { int u = 0; for (int i = 0; i < CAP; i++) if (B[i].key) u++; M.used = u; }
+#endif
   // only hash % capacity (and the probe offsets) matter: restricting the hash to 10 bits keeps every residue and every
   // collision pattern while sparing the solver a 64-bit modulo (wrap-around of hash + i at 2^64 is thereby not covered)
   for (int i = 0; i < NK; i++) { ghash[i] = nondet_u64_(); ASSUME(ghash[i] < 1024); }
